@@ -500,8 +500,12 @@ impl Monitor for KeepaliveMon {
                 nak_count: pre.nak_count as u32,
                 bitrate_bytes_per_sec: (pre.bps / 8.0) as u32,
             };
-            if info != exp {
-                rep.violation("C14.frame.telemetry", format!("arm#{} t={t}: keepalive telemetry {info:?} differs from the link's state at arm entry {exp:?}", rec.no));
+            // "the link's current window ... and rate": the housekeeping pass that sends the frame also runs window
+            // recovery and the bitrate update for the same link; whether the frame is built before or after them is
+            // not fixed by the property, so either the values at arm entry or the values at arm exit are "current"
+            let exp_post = find(&rec.post, id).map(|post| rc::KaInfo { window: post.window, bitrate_bytes_per_sec: (post.bps / 8.0) as u32, ..exp });
+            if info != exp && exp_post != Some(info) {
+                rep.violation("C14.frame.telemetry", format!("arm#{} t={t}: keepalive telemetry {info:?} differs from the link's state at arm entry {exp:?} and at arm exit {exp_post:?}", rec.no));
             }
             if !matches!(rec.kind, ArmKind::Housekeeping { .. }) {
                 rep.count("c14.keepalive_outside_housekeeping");
@@ -770,6 +774,15 @@ impl Monitor for ReturnPathMon {
             for c in rec.client.iter() {
                 if c != b {
                     rep.violation("C09.relay.modified", format!("arm#{}: the client received {} bytes {:02x?}.. for an injected datagram of {} bytes {:02x?}..", rec.no, c.len(), &c[..c.len().min(12)], b.len(), &b[..b.len().min(12)]));
+                }
+            }
+        } else if !rec.client.is_empty() && !internal && b.len() < 2 && rec.client_known_pre {
+            // below the property's "two or more bytes": whether such a datagram is relayed is unspecified; if it
+            // is, it must still be the datagram that arrived
+            rep.count("c09.short_datagram_relayed_unspecified");
+            for c in rec.client.iter() {
+                if c != b {
+                    rep.violation("C09.relay.modified", format!("arm#{}: the client received {} bytes {:02x?} for an injected {}-byte datagram {:02x?}", rec.no, c.len(), &c[..c.len().min(12)], b.len(), b));
                 }
             }
         } else if !rec.client.is_empty() {
